@@ -250,6 +250,69 @@ if __name__ == "__main__":
                     out.append(e)
             return out
 
+    class SharedLater(Stream):
+        """a library block OBJECT that was solved inside circuit A (explicit, swept values for all its parameters and a
+        foreign one) is afterwards placed in circuit B, built later behind a phase shifter declared first; B solved with
+        its defaults (and with one explicit value) must answer like the same circuit built from a fresh block object:
+        an earlier solve leaves no trace in a component that a later circuit could pick up"""
+        name = "shared_later"
+        imports = "Field Matrix Base Kernel Network Solve Params Sweep Corr"
+        case_type = "blk_case"
+        verdict_fn = "blk_verdict"
+        shard_size = 12
+
+        def generate(self, rng, tier):
+            out = []
+            for name, (_, params) in c04.BLOCKS.items():
+                if name.startswith("FPRGaussian") and tier == "quick":
+                    continue
+                for _ in range(1 if tier == "quick" else 3):
+                    n = rng.randint(2, 3)
+                    first = {q: [round(1.0 + rng.randint(1, 80) / 64.0, 6) for _ in range(n)] for q in params}
+                    first.setdefault("PS", [rng.choice([0.25, 0.75, 1.5])] * n)
+                    later = dict(rng.choice([{}, {}, {"PS": 0.5}]))
+                    if name in ("Ring", "FPR", "CWA", "FPRGaussian", "FPRGaussian_callable"):
+                        later["wl"] = 1.25            # blocks without a default wavelength
+                    out.append({"block": name, "first": first, "later": later, "bare_first": rng.random() < 0.3})
+            return out
+
+        @staticmethod
+        def _circuit(m):
+            lk_ = netlib.lk
+            with lk_.Solver() as S:
+                ps = lk_.PhaseShifter().put()
+                st = m.put()
+                lk_.connect((ps, "b0"), (st, st.pin_list[0][1]))
+                lk_.raise_pins()
+            return S
+
+        def run(self, d):
+            def mat(mod):
+                names = sorted(p.name for p in mod.pin_dic)
+                return cmat(netlib.observe_expo(mod, names, 0), cf)
+            make = c04.BLOCKS[d["block"]][0]
+            try:
+                fresh = "Obs " + mat(self._circuit(make()).solve(**d["later"]))
+            except Exception:
+                fresh = "Raised"
+            try:
+                m = make()
+                kw = {k: np.array(v) for k, v in d["first"].items()}
+                if d["bare_first"]:
+                    m.solve(**{k: v for k, v in kw.items() if k != "PS"})
+                A = self._circuit(m)
+                A.solve(**kw)
+                seq = "Obs " + clist([mat(self._circuit(m).solve(**d["later"]))])      # built AFTER the solves of A
+            except Exception:
+                seq = "Raised"
+            return "{| bk_scalar := %s; bk_sweep := %s |}" % (clist([fresh]), seq)
+
+        def nontrivial(self, d):
+            return True
+
+        def classify(self, d):
+            return d["block"] + ("/bare_first" if d["bare_first"] else "")
+
     import c02
 
     class ResolveAfterEdit(c02.HierStream):
@@ -267,7 +330,7 @@ if __name__ == "__main__":
         (the sweep stream of C10, whose driver does exactly that)"""
         name = "sweep_snapshot"
 
-    main("C06", [PurityStream(), MonitorReread(), LaterBuiltStream(), BlockHistory(), ResolveAfterEdit(), SweepSnapshot()],
+    main("C06", [PurityStream(), MonitorReread(), LaterBuiltStream(), BlockHistory(), SharedLater(), ResolveAfterEdit(), SweepSnapshot()],
          level_text="props/C06.v; the tie solves a hierarchy and its (shared) sub-solvers in random order with random "
                     "argument subsets, keeps every result alive, reads each result right after its call and again after all "
                     "later calls, and compares both readings with the model's history-free value for that call; spy leaves "
